@@ -17,6 +17,8 @@
 #ifdef __CPROVER__
 int64_t __CPROVER_uninterpreted_digit(uint64_t k, int64_t in, int64_t cin, int has_cin);
 int64_t __CPROVER_uninterpreted_carry(uint64_t k, int64_t in, int64_t cin, int has_cin);
+#endif
+#if defined(__CPROVER__) && !defined(PROJ)
 void znx_normalize(uint64_t nn, uint64_t base_k, int64_t* out, int64_t* carry_out, const int64_t* in, const int64_t* carry_in) {
   for (uint64_t j = 0; j < nn; ++j) {
     const int64_t c = carry_in ? carry_in[j] : 0;
@@ -29,7 +31,7 @@ void znx_normalize(uint64_t nn, uint64_t base_k, int64_t* out, int64_t* carry_ou
 void znx_zero_i64_ref(uint64_t nn, int64_t* res) {
   for (uint64_t j = 0; j < nn; ++j) res[j] = 0;
 }
-#else
+#elif !defined(__CPROVER__)
 /* native replay: the whole real library is linked; the two functions are the REAL primitive, so the specification below is the real digit
  * expansion and a skipped limb shows whenever it produces a carry */
 void znx_normalize(uint64_t nn, uint64_t base_k, int64_t* out, int64_t* carry_out, const int64_t* in, const int64_t* carry_in);
@@ -104,5 +106,139 @@ void h_sched(void) {
       if (i < rsz && w >= i * rsl && w < i * rsl + NNV) inside = 1;
     if (!inside) VF_ASSERT(res[w] == r0[w], "only the coefficients of the res_size output limbs are written");
   }
+  VF_REACH();
+}
+
+/* ---- EVERY ring dimension: projection onto ONE symbolic coefficient column, memory modelled by the cells of that column only ---------------------
+ * h_sched_proj (-DPROJ): N = 2^lg with lg symbolic in [0, 16], column vf_j symbolic in [0, N), res_size <= SMAX symbolic, a_size = ASZ, k and both
+ * strides symbolic.  vec_znx_normalize_base2k_ref itself never dereferences its buffers - it only forms limb pointers and hands them to the elementwise
+ * primitive (out[t], carry_out[t] depend on in[t], carry_in[t] only: decided by prim/).  The stand-in for the primitive therefore needs no memory at all:
+ * it tracks, as scalars, the cells that belong to column vf_j - one per output limb (address i*res_sl + vf_j) and the scratch cell that currently holds
+ * the column's carry - and for every call decides from the pointer OFFSETS alone which of these cells the call's index range covers and which source
+ * column lands there: column vf_j (then the uninterpreted digit / carry step is applied) or another column (then the cell is clobbered: arbitrary value).
+ * Whatever blocking, tiling or per-dimension path the driver takes, the column's cells must end up as the digit chain of the column's inputs.
+ * The buffers are 1-word objects; all pointers are out-of-bounds offsets that are never dereferenced under cbmc (cbmc 6.11 flattens constant-size
+ * arrays in its SAT back end - out of memory from 6k words on - and z3 on the array version needed minutes per instance; see DESIGN.md A.5 round 6). */
+#ifndef LGMAX
+#define LGMAX 16
+#endif
+static uint64_t vf_j, vf_pasl, vf_prsl;
+static const int64_t* vf_pa;
+static int64_t* vf_pres;
+static int64_t* vf_ptmp;
+static int64_t vf_colv[SMAX ? SMAX : 1];  /* column vf_j of the input, limb i */
+static int64_t vf_rcell[SMAX ? SMAX : 1]; /* column vf_j of the output, limb i */
+static uint64_t vf_caddr;                 /* scratch word that holds the column's carry */
+static int64_t vf_cval;
+static int vf_cvalid;
+#if defined(__CPROVER__) && defined(PROJ)
+int64_t nondet_clobber(void);
+static uint64_t vf_woff(const void* p) { return (uint64_t)__CPROVER_POINTER_OFFSET(p) / 8; }
+void znx_normalize(uint64_t nn, uint64_t base_k, int64_t* out, int64_t* carry_out, const int64_t* in, const int64_t* carry_in) {
+  VF_ASSERT(__CPROVER_same_object(in, vf_pa), "the primitive reads limbs of the input vector");
+  VF_ASSERT(out == 0 || __CPROVER_same_object(out, vf_pres), "digits are written into the output vector only");
+  VF_ASSERT(carry_out == 0 || __CPROVER_same_object(carry_out, vf_ptmp), "carries are written into the scratch only");
+  VF_ASSERT(carry_in == 0 || __CPROVER_same_object(carry_in, vf_ptmp), "carries are read from the scratch only");
+  /* limb and column of `in` (division-free: the limb index is one of 0..SMAX-1) */
+  const uint64_t wi = vf_woff(in);
+  uint64_t ci = wi;
+  int64_t x = vf_colv[0];
+  for (uint64_t q = 1; q < SMAX; ++q)
+    if (wi >= q * vf_pasl) {
+      ci = wi - q * vf_pasl;
+      x = vf_colv[q];
+    }
+  const uint64_t tj = vf_j - ci;
+  const int vj = vf_j >= ci && tj < nn; /* this call processes column vf_j at index tj */
+  int64_t c = 0;
+  if (carry_in) c = (vf_cvalid && vf_caddr == vf_woff(carry_in) + tj) ? vf_cval : nondet_clobber();
+  const int64_t d = __CPROVER_uninterpreted_digit(base_k, x, c, carry_in != 0);
+  const int64_t cy = __CPROVER_uninterpreted_carry(base_k, x, c, carry_in != 0);
+  if (out) {
+    const uint64_t wo = vf_woff(out);
+    for (uint64_t i = 0; i < SMAX; ++i) {
+      const uint64_t cell = i * vf_prsl + vf_j;
+      if (cell >= wo && cell - wo < nn) vf_rcell[i] = (vj && cell - wo == tj) ? d : nondet_clobber();
+    }
+  }
+  if (carry_out) {
+    const uint64_t wc = vf_woff(carry_out);
+    if (vj) {
+      vf_caddr = wc + tj;
+      vf_cval = cy;
+      vf_cvalid = 1;
+    } else if (vf_cvalid && vf_caddr >= wc && vf_caddr - wc < nn)
+      vf_cval = nondet_clobber(); /* another column's carry stored over the cell that holds this column's */
+  }
+}
+void znx_zero_i64_ref(uint64_t nn, int64_t* res) {
+  VF_ASSERT(__CPROVER_same_object(res, vf_pres), "zero fill goes to the output vector only");
+  const uint64_t wo = vf_woff(res);
+  for (uint64_t i = 0; i < SMAX; ++i) {
+    const uint64_t cell = i * vf_prsl + vf_j;
+    if (cell >= wo && cell - wo < nn) vf_rcell[i] = 0;
+  }
+}
+#endif
+
+void h_sched_proj(void) {
+  MODULE mod;
+  const uint64_t lg = vf_u64();
+  VF_ASSUME(lg <= LGMAX);
+  const uint64_t nn = UINT64_C(1) << lg;
+  mod.nn = nn;
+  mod.m = nn >> 1;
+  const uint64_t rsz = vf_u64();
+  const uint64_t asz = ASZ;
+  const uint64_t k = vf_u64();
+  const uint64_t rsl = nn + (vf_u64() & 1), asl = nn + (vf_u64() & 1);
+  vf_j = vf_u64();
+  VF_ASSUME(rsz <= SMAX && k >= 1 && k <= 62 && vf_j < nn);
+  for (uint64_t i = 0; i < SMAX; ++i) vf_colv[i] = vf_i64();
+  vf_pasl = asl;
+  vf_prsl = rsl;
+#ifdef __CPROVER__
+  /* 1-word objects: under cbmc no buffer word is ever dereferenced (see above) */
+  int64_t* a = (int64_t*)malloc(sizeof(int64_t));
+  int64_t* res = (int64_t*)malloc(sizeof(int64_t));
+  int64_t* tmpw = (int64_t*)malloc(sizeof(int64_t));
+  __CPROVER_assume(a != 0 && res != 0 && tmpw != 0);
+  for (uint64_t i = 0; i < SMAX; ++i) vf_rcell[i] = nondet_clobber(); /* arbitrary prior contents of the output */
+  vf_cvalid = 0;
+#else
+  /* native replay: the real primitive on full-size buffers; every column carries the same limb values, scratch and result start from non-zero patterns */
+  const uint64_t words = (uint64_t)SMAX * (nn + 1) + 1;
+  int64_t* a = (int64_t*)malloc(words * sizeof(int64_t));
+  int64_t* res = (int64_t*)malloc(words * sizeof(int64_t));
+  int64_t* tmpw = (int64_t*)malloc((nn + 1) * sizeof(int64_t));
+  for (uint64_t i = 0; i < words; ++i) {
+    a[i] = 0;
+    res[i] = INT64_C(0x5a5a5a5a5a5a5a5a);
+  }
+  for (uint64_t i = 0; i < asz; ++i)
+    for (uint64_t j = 0; j < nn; ++j) a[i * asl + j] = vf_colv[i];
+  for (uint64_t j = 0; j < nn; ++j) tmpw[j] = 1;
+#endif
+  vf_pa = a;
+  vf_pres = res;
+  vf_ptmp = tmpw;
+  vec_znx_normalize_base2k_ref(&mod, k, res, rsz, rsl, a, asz, asl, (uint8_t*)tmpw);
+#ifndef __CPROVER__
+  for (uint64_t i = 0; i < SMAX; ++i)
+    if (i < rsz) vf_rcell[i] = res[i * rsl + vf_j];
+#endif
+  int64_t carry = 0;
+  int has = 0;
+  for (uint64_t ii = 0; ii < SMAX; ++ii) {
+    const uint64_t i = SMAX - 1 - ii;
+    if (i >= asz) continue;
+    const int64_t in = vf_colv[i];
+    const int64_t d = __CPROVER_uninterpreted_digit(k, in, carry, has);
+    carry = __CPROVER_uninterpreted_carry(k, in, carry, has);
+    has = 1;
+    if (i < rsz) VF_ASSERT(vf_rcell[i] == d, "every N: column j of output limb i is the digit of column j of input limb i with the carry threaded from every lower limb");
+  }
+  for (uint64_t i = 0; i < SMAX; ++i)
+    if (i >= asz && i < rsz) VF_ASSERT(vf_rcell[i] == 0, "every N: output limbs beyond the input size are zero (column j)");
   VF_REACH();
 }
